@@ -8,6 +8,7 @@ import (
 	"testing"
 
 	"verif/corp"
+	"verif/cs"
 	"verif/eng"
 	"verif/rec"
 	"verif/wv"
@@ -26,6 +27,27 @@ type c01Case struct {
 	Rnd   string  `json:"random_value,omitempty"`
 	Other string  `json:"other_instance,omitempty"`
 	Edit  *cdEdit `json:"edit,omitempty"`
+	// Backend "" = evaluation engine; "r1cs"/"scs" = whole circuit compiled with gnark's builder
+	// (commit range checker, as deployed) and the perturbed witness handed to gnark's solver
+	Backend string `json:"backend,omitempty"`
+}
+
+var c01Compiled = map[string]*cs.System{}
+
+func c01CompiledSystem(base string, k int, backend string) (*cs.System, error) {
+	key := fmt.Sprintf("%s/%d/%s", base, k, backend)
+	if s, ok := c01Compiled[key]; ok {
+		return s, nil
+	}
+	kind := cs.R1CS
+	if backend == "scs" {
+		kind = cs.SCS
+	}
+	s, err := cs.CompileCircuit(kind, cs.MechCommit, wv.Load(base, k).PlainTemplate())
+	if err == nil {
+		c01Compiled[key] = s
+	}
+	return s, err
 }
 
 func (c c01Case) key() string {
@@ -54,6 +76,26 @@ func c01Run(c c01Case) (viol, trivial bool, desc string, res eng.Result) {
 		muts := rn.perturb(i, c.Pert, rnd)
 		if muts == nil {
 			return false, true, "", res
+		}
+		if c.Backend != "" {
+			sys, err := c01CompiledSystem(c.Base, c.K, c.Backend)
+			if err != nil {
+				res.Outcome, res.Msg = eng.Refused, "compile: "+err.Error()
+				return false, false, "", res
+			}
+			for j, x := range muts {
+				wv.Set(rn.vals[j], x)
+			}
+			serr := sys.SolveCircuit(rn.asg)
+			for j := range muts {
+				wv.Set(rn.vals[j], rn.orig[j])
+			}
+			if serr == nil {
+				res.Outcome = eng.Accept
+				return true, false, fmt.Sprintf("%s: compiled %s system is SOLVED by the witness with leaf %s (%s) perturbed by %s", rn.in.Name(), c.Backend, c.Leaf, rn.orig[i], c.Pert), res
+			}
+			res.Outcome, res.Msg = eng.Reject, truncate(serr.Error(), 100)
+			return false, false, "", res
 		}
 		res = rn.run(muts, eng.Options{Mode: eng.ModeNative})
 		if res.Outcome != eng.Accept {
@@ -133,7 +175,7 @@ func c01Eligible(l wv.Leaf) bool {
 func TestC01(t *testing.T) {
 	r := rec.New("C01")
 	defer r.Flush()
-	r.Rule("(a) leaf perturbations: leaves of proof, public inputs and circuit digest are partitioned into strata (leaf kind incl. tree/step index x round bucket {first,mid,last} x position in list {first,mid,last}); quick: per stratum of A1/k=28, B1/k=28 and two prefix instances rapid draws leaves and a perturbation in {+1,-1,random,zero,swap-with-neighbour} (computed mod p resp. mod r); thorough: every leaf position of A1 and B1 once plus all five perturbations on a sample, other proofs stratified.  (b) the verifier data of the other inner circuit.  (c) single-constant edits of the circuit description (each of 80 k_is +-1/random/swapped, every numeric parameter of every gate id +-1, gate replaced by another, selector indices and group bounds +-1, degree bits, quotient degree factor, partial products, constants, challenges, wires) whose edited description the reference verifier rejects.  Oracle: whole VerifierCircuit must not ACCEPT (REJECT or REFUSED both fine; candidates are re-checked under bit decomposition).  Trivial (not counted) = perturbation equal to the original, or description edit the reference still accepts.  Distinct = (instance, leaf or edit, perturbation).")
+	r.Rule("(a) leaf perturbations: leaves of proof, public inputs and circuit digest are partitioned into strata (leaf kind incl. tree/step index x round bucket {first,mid,last} x position in list {first,mid,last}); quick: per stratum of A1/k=28, B1/k=28 and two prefix instances rapid draws leaves and a perturbation in {+1,-1,random,zero,swap-with-neighbour} (computed mod p resp. mod r); thorough: every leaf position of A1 and B1 once plus all five perturbations on a sample, other proofs stratified.  (b) the verifier data of the other inner circuit.  (c) single-constant edits of the circuit description (each of 80 k_is +-1/random/swapped, every numeric parameter of every gate id +-1, gate replaced by another, selector indices and group bounds +-1, degree bits, quotient degree factor, partial products, constants, challenges, wires) whose edited description the reference verifier rejects.  (a') one perturbed leaf of every leaf kind handed to gnark's own solver on the whole circuit compiled to R1CS (and SCS in the thorough tier) with the commit range checker, i.e. the deployed proof system.  Oracle: whole VerifierCircuit must not ACCEPT (REJECT or REFUSED both fine; candidates are re-checked under bit decomposition).  Trivial (not counted) = perturbation equal to the original, or description edit the reference still accepts.  Distinct = (instance, leaf or edit, perturbation).")
 	r.Assume("reference verifier (accepts all five real proofs, KATs) labels description edits", "a perturbed proof verifying by chance has negligible probability (2^-100 soundness target)")
 
 	var rp c01Case
@@ -236,6 +278,38 @@ func TestC01(t *testing.T) {
 				}
 				p := []string{"+1", "-1", "zero", "swap"}[i%4]
 				exec(t, c01Case{Base: b, K: 28, Kind: "leaf", Leaf: l.Name, Pert: p}, "all-positions/"+l.Kind)
+			}
+		}
+	}
+
+	// ---- (a') the same kind of perturbation handed to gnark's solver on the compiled circuit ----
+	{
+		base, k := "A1", 1
+		backends := []string{"r1cs"}
+		if rec.Thorough() {
+			backends = []string{"r1cs", "scs"}
+		}
+		for bi, backend := range backends {
+			item++
+			if !rec.Mine(item + 3*bi + 5) {
+				continue
+			}
+			rn := getRunner(base, k)
+			seen := map[string]int{}
+			for i, l := range rn.leaves {
+				if !c01Eligible(l) {
+					continue
+				}
+				lim := 1
+				if rec.Thorough() {
+					lim = 6
+				}
+				if seen[l.Kind] >= lim {
+					continue
+				}
+				seen[l.Kind]++
+				p := []string{"+1", "-1", "zero", "swap", "+1", "-1"}[(i+seen[l.Kind])%6]
+				exec(t, c01Case{Base: base, K: k, Kind: "leaf", Leaf: l.Name, Pert: p, Backend: backend}, "compiled-"+backend+"/"+l.Kind)
 			}
 		}
 	}
